@@ -2,6 +2,7 @@ package tun
 
 import (
 	"fmt"
+	"strings"
 
 	"pgregory.net/rapid"
 	"verif/harness/common"
@@ -68,9 +69,11 @@ func oracleC05(p *Plan, res *Result) *common.Fail {
 			// signature of the known finding: the number was re-used after a Send that timed out
 			// although the gateway had accepted its request
 			for _, a := range sends[:k] {
-				if _, aOn := busPos[a.tag]; aOn && isTimeoutErr(a.err) && a.seq == s.seq {
+				// the earlier Send gave up without an acknowledgement (response timeout, or a socket error on a
+				// retransmission) although one of its transmissions had reached the gateway
+				if _, aOn := busPos[a.tag]; aOn && (isTimeoutErr(a.err) || strings.Contains(a.err, "scripted socket error")) && a.seq == s.seq {
 					f.Known = "seq-reuse-after-timeout"
-					f.Detail += fmt.Sprintf(" [sequence number %d was re-used: Send(telegram %d) had timed out although the gateway had accepted it]", s.seq, a.tag)
+					f.Detail += fmt.Sprintf(" [sequence number %d was re-used: Send(telegram %d) had failed with %q although the gateway had accepted it]", s.seq, a.tag, a.err)
 					break
 				}
 			}
@@ -151,6 +154,11 @@ func genPlanC05(rt *rapid.T) *Plan {
 		ref.Bus = append(ref.Bus, BusStep{AfterUs: rapid.SampledFrom([]int{0, 0, 1, rms}).Draw(rt, "bus-gap")*1000 + 211, Tag: 100000 + i})
 	}
 	p.Ref = ref
+	if rapid.IntRange(0, 2).Draw(rt, "socket-errors") == 0 {
+		for i := 0; i < rapid.IntRange(1, 4).Draw(rt, "n-sock-fail"); i++ {
+			p.FailOut = append(p.FailOut, rapid.IntRange(0, 2*(n+m)+2).Draw(rt, "sock-fail-at"))
+		}
+	}
 	p.Consumer = []ConStep{{AfterUs: 50, Kind: "drain"}}
 	if rapid.IntRange(0, 3).Draw(rt, "slow-reader") == 0 {
 		p.Consumer = nil
